@@ -682,12 +682,34 @@ class Models(object):
         return acc, st, live
 
     def sort_by_key(self, ex, fr, c, a, st, pc):
-        """stable sort of a Vec with symbolic length: bubble network, swap only when strictly greater"""
+        """stable sort of a Vec with symbolic length: bubble network, swap only when strictly greater;
+        keys may be integers or tuples of integers (lexicographic)"""
         v = self.rd(st, a[0])
         if not isinstance(v, VecV):
             raise Unsupported('sort_by_key on %r' % (v,))
         cells = list(v.cells)
         n = len(cells)
+
+        def flat(k):
+            if isinstance(k, S.Term):
+                return [k]
+            if isinstance(k, tuple):
+                out = []
+                for x in k:
+                    out += flat(x)
+                return out
+            raise Unsupported('sort key %r' % (k,))
+
+        def less(x, y):
+            # lexicographic x < y
+            r = S.FALSE
+            for p_, q_ in reversed(list(zip(x, y))):
+                if p_.sort == S.B:
+                    lt, eq = S.And(S.Not(p_), q_), S.Eq(p_, q_)
+                else:
+                    lt, eq = S.Ult(p_, q_), S.Eq(p_, q_)
+                r = S.Or(lt, S.And(eq, r))
+            return r
         keys = []
         for i in range(n):
             if cells[i] is UNDEF:
@@ -699,19 +721,20 @@ class Models(object):
                 raise Unsupported('sort key closure diverges')
             st = st2
             valid = S.Ult(S.bv(i, 64), v.length)
-            # invalid (beyond length) elements get key +inf so they stay behind
-            keys.append(S.Ite(valid, S.ZExt(k, k.sort + 1), S.bv(1 << k.sort, k.sort + 1)))
+            # leading component: invalid (beyond length) elements sort last
+            keys.append([S.Not(valid)] + flat(k))
         for rnd in range(n):
             for i in range(n - 1 - rnd):
                 if cells[i] is UNDEF or cells[i + 1] is UNDEF:
                     continue
-                sw = S.Ult(keys[i + 1], keys[i])
+                sw = less(keys[i + 1], keys[i])
                 if sw is S.FALSE:
                     continue
                 x, y = cells[i], cells[i + 1]
                 cells[i], cells[i + 1] = merge(sw, y, x), merge(sw, x, y)
                 kx, ky = keys[i], keys[i + 1]
-                keys[i], keys[i + 1] = S.Ite(sw, ky, kx), S.Ite(sw, kx, ky)
+                keys[i] = [S.Ite(sw, q_, p_) for p_, q_ in zip(kx, ky)]
+                keys[i + 1] = [S.Ite(sw, p_, q_) for p_, q_ in zip(kx, ky)]
         self.wr(st, a[0], VecV(cells, v.length))
         return UNIT, st, S.TRUE
 
